@@ -9,7 +9,12 @@ import RpylibModel.ProofsGen.C06Budget
 import RpylibModel.Proofs.C07
 import RpylibModel.Proofs.C08
 import RpylibModel.Proofs.C09
+import RpylibModel.Proofs.C10
 import RpylibModel.Proofs.C11
 import RpylibModel.Proofs.C12
 import RpylibModel.Proofs.C13
 import RpylibModel.Proofs.C14
+import RpylibModel.Proofs.C17
+import RpylibModel.Proofs.C18
+import RpylibModel.Proofs.C20
+import RpylibModel.ProofsGen.C20Table
